@@ -29,8 +29,9 @@ def main(argv=None):
   sys.path.insert(0, common.REPO)
   t0 = time.time()
   try:
-    mod = importlib.import_module('mmverif.props.' + pid.lower())
     from mmverif.props import base
+    from mmverif.props import registry
+    mod = registry.get(pid)
     rep = base.run_property(mod, args.tier, seed)
   except Exception:  # pylint: disable=broad-except
     traceback.print_exc()
